@@ -150,8 +150,30 @@ func c19Case(t *rapid.T, rec *ev.Rec, jr *journal) {
 		if knownStep(rec, s, st) {
 			return
 		}
+		// ensure / alter create persist before they build an index on a
+		// populated table (db19 f849650): that state holds the database as
+		// it is before the request
+		pre := ""
+		if st.Kind == dbgen.KAdmin && (st.Admin.Kind == "ensure" || st.Admin.Kind == "altercreate") {
+			if len(states) > 0 && nowMs() <= states[len(states)-1].t {
+				time.Sleep(time.Millisecond)
+			}
+			s.Quiesce()
+			pre = dbgen.Dump(s.DB)
+		}
 		jr.add(st)
 		res := s.Apply(st)
+		if pre != "" {
+			if off := s.DB.GetState().Off; off != s.LastOff {
+				s.LastOff = off
+				sr := stateRec{t: nowMs(), off: off, dump: pre}
+				if raw := rawStateTime(s.DB, off); raw != sr.t {
+					fail("state record at %d carries time %d, the (fake) clock says %d", off, raw, sr.t)
+				}
+				states = append(states, sr)
+				rec.Label("state_written_by_index_build")
+			}
+		}
 		if knownBadTail(rec, res) {
 			excluded = true
 			return
